@@ -241,9 +241,22 @@ def check_tokens(words):
                 eds = list(w.exact_editions) or list(w.variation_editions)
                 if not any(e.reporter.source in SRC for e in eds):
                     bad.append((str(w), "citation token without an edition from a known source"))
-        elif name == "StopWordToken" and "stop_word" not in w.groups:
+        if name in ("CitationToken", "IdToken", "SupraToken", "SectionToken") and not (w.start < w.end):
+            bad.append((str(w), "empty special token"))
+        if name == "StopWordToken" and "stop_word" not in w.groups:
             bad.append((str(w), "stop-word token without the stop_word group"))
     return bad
+
+
+def defyear_unmet(rec):
+    """defyear_ok (premise of the C17 theorem): a DEFENDANT_YEAR match with a year has a non-empty defendant"""
+    n = 0
+    for (pid, text), r in rec.searches.items():
+        if pid == "PDefYear" and r is not None:
+            y, d = r["groups"].get("year"), r["groups"].get("defendant")
+            if y and y[1] > y[0] and not (d and d[1] > d[0]):
+                n += 1
+    return n
 
 
 def canon_py(c, edmap):
